@@ -12,8 +12,9 @@ open Pywbem.Model.Uri Pywbem.Proto Proofs.Uri
     backslash first, then double quote; every theorem below is about these chains -/
 theorem C07_escape_chain_pinned :
     Pywbem.Generated.uriEscapeChain = [('\\', ['\\', '\\']), ('"', ['\\', '"'])] ∧
-    Pywbem.Generated.uriRefEscapeChain = Pywbem.Generated.uriEscapeChain := by
-  constructor <;> decide
+    Pywbem.Generated.uriRefEscapeChain = Pywbem.Generated.uriEscapeChain ∧
+    Pywbem.Generated.uriFormats = ["standard", "canonical", "cimobject", "historical"] := by
+  refine ⟨?_, ?_, ?_⟩ <;> decide
 
 /-- **String values survive.** for every string (quotes, backslashes, commas, newlines, anything):
     the printed form `"` + escaped + `"` is consumed by the keybinding regex as exactly one
@@ -59,7 +60,7 @@ example : PathEquiv asciiTab demoP demoQ :=
     (.trans .swap (.cons (by decide)
       (.ref (.mk trivial (by simp only [OptLowerEq]; decide) (by decide) (.trans .swap (.cons (by decide) .refl (.cons (by decide) .refl .nil)))))
       (.cons (by decide) .refl .nil)))
-example : toUri asciiTab .canonical demoP = toUri asciiTab .canonical demoQ := by decide
+example : toUri asciiTab .canonical demoP = toUri asciiTab .canonical demoQ := by decide +kernel
 example : toUri asciiTab .canonical demoP =
     "//acme.com/root/cimv2:cim_foo.name=\"a\\\"b\",ref=\"/root:cim_bar.x=1,y=TRUE\"".toList := by decide
 /-- without the NocaseDict invariant the statement is false: two keys that differ only in case -/
@@ -86,5 +87,156 @@ theorem C07_fromUri_total (T : Tab) (s : Str) :
     split at he
     · cases he; rfl
     · simp only at he; split at he <;> cases he; rfl
+
+/-- **Reals survive.**  For every text of one of the shapes `repr(float)` produces (`inf`, `-inf`, `nan`, `[-]d+.d+`,
+    `[-]d+[.d+]e[+-]d+`, any number of digits): the printed literal — with `.0` inserted before a bare exponent —
+    is one unquoted keybinding token and `_kbstr_to_cimval` reads it back as a real with that literal
+    (REAL_VALUE matches it; BINARY/OCTAL/DECIMAL/HEX_VALUE, the booleans and the quote tests do not). -/
+theorem C07_real_printed_accepted (T : Tab) (hT : TabOk T) (r : Str) (h : isFloatRepr r = true) (rest : Str)
+    (hr : rest = [] ∨ ∃ t, rest = ',' :: t) (rec : Str → Except PyExc Path) :
+    scanVal (fixExp r ++ rest) = some (fixExp r, rest) ∧ kbVal T rec (fixExp r) = .ok (.real (fixExp r)) ∧
+    realLit (fixExp r) = true :=
+  ⟨(real_printed_ok hT h).1.scan rest hr, (real_printed_ok hT h).2 rec, by
+    have := (real_printed_ok hT h).2 (fun _ => .error .valueError)
+    rcases fixExp_form1 h with h1 | h1 | h1 | hf
+    · subst h1; decide
+    · subst h1; decide
+    · subst h1; decide
+    · exact (form1_lits hf).2⟩
+
+example : isFloatRepr "1e+16".toList = true ∧ isFloatRepr "-1.5e-05".toList = true ∧ isFloatRepr "0.1".toList = true ∧
+    isFloatRepr "1e16".toList = false ∧ isFloatRepr "1.".toList = false := by decide
+
+/-- **Round trip** (partial: the three open findings C07-F1/F2/F3 are excluded by `PathSafe`, see the
+    witnesses below; `cimobject` is excluded because it drops the host by design).
+    Full statement: for every instance path `p` within the documented limits of untyped WBEM URIs and
+    `fmt ∈ {standard, historical, canonical}`: `from_wbem_uri(p.to_wbem_uri(fmt))` succeeds and gives `normPath fmt p`,
+    i.e. `p` itself up to: names in the lexical case of the format, keybindings in printing order, reals as
+    the printed literal — at every nesting depth of reference keys (induction on the path).
+    `PathSafe` spells the limits out: string values that do not read as a URI or datetime and contain no
+    newline (F1); datetime texts accepted by CIMDateTime; real texts of the shape `repr(float)` gives
+    (`C07_real_printed_accepted`); host of authority characters, non-empty; namespace `\w+(/\w+)*` (F2);
+    historical format: no host without namespace (F3); class and key names non-empty `\w+`; at least one
+    keybinding; key names pairwise different after casefold. -/
+theorem C07_uri_roundtrip_partial (T : Tab) (hT : TabOk T) (fmt : Fmt) (p : Path) (hs : PathSafe T fmt p) :
+    fromUri T (toUri T fmt p) = .ok (normPath T fmt p) :=
+  (path_rt hT fmt p hs).2 _ (by omega)
+
+/-- **The re-parsed path is `==` the original** (partial, same exclusions; NaN keys excluded because `nan != nan`).
+    `PathEq` mirrors `CIMInstanceName.__eq__` (names by `lower()`, keybindings by NocaseDict lookup, reference keys
+    recursively); `R` is the hypothesis record for CPython's float(): inserting `.0` does not change the value. -/
+theorem C07_roundtrip_equal_partial (T : Tab) (hT : TabOk T) (R : RealSem) (fmt : Fmt) (p : Path)
+    (hs : PathSafe T fmt p) (hn : NoNaN p) :
+    ∃ q, fromUri T (toUri T fmt p) = .ok q ∧ PathEq T R q p :=
+  ⟨_, C07_uri_roundtrip_partial T hT fmt p hs, path_eq hT R fmt p hs hn⟩
+
+/-- the hypothesis record is satisfiable -/
+example : RealSem := ⟨fun _ _ => True, fun _ _ _ => trivial⟩
+
+/-- **Every printed URI is accepted** (partial, same exclusions): corollary of the round trip -/
+theorem C07_printed_is_accepted_partial (T : Tab) (hT : TabOk T) (fmt : Fmt) (p : Path) (hs : PathSafe T fmt p) :
+    ∃ q, fromUri T (toUri T fmt p) = .ok q :=
+  ⟨_, C07_uri_roundtrip_partial T hT fmt p hs⟩
+
+/-- a printed URI of a safe path never contains a newline (so it can be nested in a reference key) -/
+theorem C07_printed_has_no_newline (T : Tab) (hT : TabOk T) (fmt : Fmt) (p : Path) (hs : PathSafe T fmt p) :
+    ∀ c ∈ toUri T fmt p, c ≠ '\n' :=
+  (path_rt hT fmt p hs).1
+
+/-- **Class paths round-trip** (partial: F2, F3 excluded by `HeadSafe`) -/
+theorem C07_class_roundtrip_partial (T : Tab) (hT : TabOk T) (fmt : Fmt) (p : ClassPath)
+    (hs : HeadSafe T fmt p.host p.ns p.cls) :
+    fromUriClass T (toUriClass T fmt p) =
+      .ok { host := p.host.map (caseOf T fmt), ns := p.ns.map (caseOf T fmt), cls := caseOf T fmt p.cls } := by
+  have h := parseHead_printed hT hs (tail := []) (Or.inl rfl)
+  simp only [List.append_nil] at h
+  unfold fromUriClass toUriClass
+  rw [h]
+  simp [takeWhile_end hs.cls.2, dropWhile_end hs.cls.2, hs.cls.1, atEnd]
+
+/-! non-vacuity: a path with every value type, a nested reference, host with port and hyphen, two-level namespace -/
+def demoSafe : Path := .mk (some "my-host.acme.com:5989".toList) (some "root/cimv2".toList) "CIM_Foo".toList
+  (.cons "Name".toList (.str "a\"b\\c, d=e".toList) (.cons "B".toList (.bool true) (.cons "I".toList (.int (-42))
+    (.cons "Ref".toList (.ref (.mk none (some "root".toList) "CIM_Bar".toList (.cons "X".toList (.int 1) .nil))) .nil))))
+
+example : okIs (fromUri asciiTab (toUri asciiTab .standard demoSafe)) (normPath asciiTab .standard demoSafe) = true := by decide +kernel
+example : okIs (fromUri asciiTab (toUri asciiTab .historical demoSafe)) (normPath asciiTab .historical demoSafe) = true := by decide +kernel
+example : okIs (fromUri asciiTab (toUri asciiTab .canonical demoSafe)) (normPath asciiTab .canonical demoSafe) = true := by decide +kernel
+
+/-- non-vacuity of the hypotheses: `TabOk` holds for the ASCII table and `PathSafe` for a path with host, two-level
+    namespace, a string with quote / backslash / comma / `=`, an integer and a nested reference with a boolean -/
+def demoSmall : Path := .mk (some "my-host:5989".toList) (some "root/cimv2".toList) "CIM_Foo".toList
+  (.cons "Name".toList (.str "a\"b\\,=".toList) (.cons "I".toList (.int (-42))
+    (.cons "Ref".toList (.ref (.mk none (some "root".toList) "CIM_Bar".toList (.cons "X".toList (.bool true) .nil))) .nil)))
+
+theorem isValueError_eq {r : Except PyExc Path} (h : isValueError r = true) : r = .error .valueError := by
+  unfold isValueError at h
+  split at h
+  · rfl
+  · cases h
+
+example : TabOk asciiTab := asciiTabOk
+example : PathSafe asciiTab .standard demoSmall := by
+  have head1 : HeadSafe asciiTab .standard (some "my-host:5989".toList) (some "root/cimv2".toList) "CIM_Foo".toList :=
+    ⟨(by decide), (by intro x hx; cases hx; decide +kernel), (by intro x hx; cases hx; decide +kernel), (by decide +kernel),
+     (by intro h; cases h)⟩
+  have head2 : HeadSafe asciiTab .standard none (some "root".toList) "CIM_Bar".toList :=
+    ⟨(by decide), (by intro x hx; cases hx), (by intro x hx; cases hx; decide +kernel), (by decide +kernel), (by intro h; cases h)⟩
+  have str1 : (∀ c ∈ "a\"b\\,=".toList, c ≠ '\n') ∧ NotUri asciiTab "a\"b\\,=".toList ∧ dtAccepts "a\"b\\,=".toList = false :=
+    ⟨(by decide +kernel), isValueError_eq (by decide +kernel), (by decide +kernel)⟩
+  simp only [demoSmall, PathSafe, KeysSafe, ValSafe]
+  exact ⟨head1, (by intro h; cases h), (by decide +kernel), (by decide +kernel), str1, trivial,
+    ⟨head2, (by intro h; cases h), (by decide +kernel), (by decide +kernel), trivial, trivial⟩, trivial⟩
+
+/-! ### negation witnesses: each exclusion of `PathSafe` is needed (model = code incl. the open findings) -/
+
+/-- F1: a newline in a string key — printed, not accepted -/
+theorem C07_roundtrip_fails_at_newline :
+    isValueError (fromUri asciiTab (toUri asciiTab .standard
+      (.mk none none ['C'] (.cons ['k'] (.str ['a', '\n', 'b']) .nil)))) = true := by decide +kernel
+
+/-- F2: a namespace with a hyphen — printed, not accepted -/
+theorem C07_roundtrip_fails_at_namespace_chars :
+    isValueError (fromUri asciiTab (toUri asciiTab .standard
+      (.mk none (some "root/my-ns".toList) ['C'] (.cons ['k'] (.int 1) .nil)))) = true := by decide +kernel
+
+/-- F3: historical format (`str()`), host without namespace — printed `//h/C.k=1`, not accepted -/
+theorem C07_roundtrip_fails_at_historical_host_without_namespace :
+    toUri asciiTab .historical (.mk (some ['h']) none ['C'] (.cons ['k'] (.int 1) .nil)) = "//h/C.k=1".toList ∧
+    isValueError (fromUri asciiTab "//h/C.k=1".toList) = true := by decide +kernel
+
+/-- documented limit: a string that reads as a URI comes back as a reference -/
+theorem C07_roundtrip_limit_string_reads_as_uri :
+    okIs (fromUri asciiTab (toUri asciiTab .standard (.mk none none ['C'] (.cons ['k'] (.str "D.j=1".toList) .nil))))
+      (.mk none none ['C'] (.cons ['k'] (.ref (.mk none none ['D'] (.cons ['j'] (.int 1) .nil))) .nil)) = true := by decide +kernel
+
+/-- documented limit: a string that reads as a datetime comes back as a datetime -/
+theorem C07_roundtrip_limit_string_reads_as_datetime :
+    okIs (fromUri asciiTab (toUri asciiTab .standard
+        (.mk none none ['C'] (.cons ['k'] (.str "20140924193040.654321+120".toList) .nil))))
+      (.mk none none ['C'] (.cons ['k'] (.dt "20140924193040.654321+120".toList) .nil)) = true := by decide +kernel
+
+/-- an instance path without keybindings is printed as a class path and not accepted -/
+theorem C07_roundtrip_fails_without_keybindings :
+    isValueError (fromUri asciiTab (toUri asciiTab .standard (.mk none (some ['n']) ['C'] .nil))) = true := by decide +kernel
+
+/-- an empty host string comes back as no host -/
+theorem C07_roundtrip_fails_at_empty_host :
+    okIs (fromUri asciiTab (toUri asciiTab .standard (.mk (some []) (some ['n']) ['C'] (.cons ['k'] (.int 1) .nil))))
+      (.mk none (some ['n']) ['C'] (.cons ['k'] (.int 1) .nil)) = true := by decide +kernel
+
+/-- a key name that is not `\w+` is printed and not accepted -/
+theorem C07_roundtrip_fails_at_key_name_chars :
+    isValueError (fromUri asciiTab (toUri asciiTab .standard
+      (.mk none none ['C'] (.cons "my-key".toList (.int 1) .nil)))) = true := by decide +kernel
+
+/-- a real whose text is not of `repr(float)` shape is not read back as a real -/
+theorem C07_roundtrip_fails_at_non_repr_real :
+    isValueError (fromUri asciiTab (toUri asciiTab .standard
+      (.mk none none ['C'] (.cons ['k'] (.real "1e+".toList) .nil)))) = true := by decide +kernel
+
+/-- before the fix (no `.0` inserted) the literal `1e+16` that `repr(1e16)` gives is rejected by REAL_VALUE -/
+theorem C07_exponent_fix_needed : realLit "1e+16".toList = false ∧ realLit (fixExp "1e+16".toList) = true ∧
+    fixExp "1e+16".toList = "1.0e+16".toList := by decide +kernel
 
 end C07
